@@ -126,3 +126,155 @@ func c01FloatToInt(w *World, r *Report) {
 		r.OK("R01.7", "package xpath: no float -> integer conversion", token.NoPos, "none present")
 	}
 }
+
+// R01.8  byte offsets and character counts are never mixed. Every integer in
+// the string functions is either a byte quantity (strings.Index*, len(string),
+// the key of a range over a string) or a character quantity
+// (utf8.RuneCountInString, len([]rune), an index into a []rune). Adding,
+// subtracting or comparing one with the other, slicing a string with a
+// character quantity or a []rune with a byte quantity is a unit error that
+// only shows on non-ASCII text.
+type strUnit int
+
+const (
+	unitAny strUnit = iota
+	unitBytes
+	unitRunes
+	unitClash
+)
+
+func (u strUnit) String() string { return [...]string{"any", "bytes", "characters", "mixed"}[u] }
+
+func c01Units(w *World, r *Report) {
+	sp := w.SSAPkg("xpath")
+	isString := func(t types.Type) bool {
+		b, ok := t.Underlying().(*types.Basic)
+		return ok && b.Info()&types.IsString != 0
+	}
+	isRuneSlice := func(t types.Type) bool {
+		s, ok := t.Underlying().(*types.Slice)
+		if !ok {
+			return false
+		}
+		b, ok := s.Elem().Underlying().(*types.Basic)
+		return ok && b.Kind() == types.Int32
+	}
+	nFuncs, nOps := 0, 0
+	for _, f := range allFuncs(sp) {
+		memo := map[ssa.Value]strUnit{}
+		var clashAt ssa.Value
+		var unit func(v ssa.Value, d int) strUnit
+		join := func(a, b strUnit) strUnit {
+			switch {
+			case a == unitAny:
+				return b
+			case b == unitAny:
+				return a
+			case a == b:
+				return a
+			}
+			return unitClash
+		}
+		unit = func(v ssa.Value, d int) strUnit {
+			if u, ok := memo[v]; ok {
+				return u
+			}
+			if d > 12 {
+				return unitAny
+			}
+			memo[v] = unitAny
+			u := unitAny
+			switch x := v.(type) {
+			case *ssa.Call:
+				if b, ok := x.Call.Value.(*ssa.Builtin); ok && b.Name() == "len" {
+					if isString(x.Call.Args[0].Type()) {
+						u = unitBytes
+					} else if isRuneSlice(x.Call.Args[0].Type()) {
+						u = unitRunes
+					}
+				} else if sc := x.Call.StaticCallee(); sc != nil {
+					switch sc.String() {
+					case "strings.Index", "strings.LastIndex", "strings.IndexByte", "strings.IndexRune", "strings.IndexAny", "strings.LastIndexByte", "strings.LastIndexAny", "strings.IndexFunc":
+						u = unitBytes
+					case "unicode/utf8.RuneCountInString", "unicode/utf8.RuneCount":
+						u = unitRunes
+					}
+				}
+			case *ssa.BinOp:
+				switch x.Op {
+				case token.ADD, token.SUB:
+					u = join(unit(x.X, d+1), unit(x.Y, d+1))
+					if u == unitClash && clashAt == nil {
+						clashAt = x
+					}
+				}
+			case *ssa.Phi:
+				for _, e := range x.Edges {
+					u = join(u, unit(e, d+1))
+				}
+				if u == unitClash {
+					u = unitAny // different units on different paths: judged at the uses
+				}
+			case *ssa.Convert:
+				u = unit(x.X, d+1)
+			case *ssa.ChangeType:
+				u = unit(x.X, d+1)
+			case *ssa.Extract:
+				// key of a range over a string: byte offset
+				if nx, ok := x.Tuple.(*ssa.Next); ok && nx.IsString && x.Index == 1 {
+					u = unitBytes
+				}
+			}
+			memo[v] = u
+			return u
+		}
+		used := false
+		for _, b := range f.Blocks {
+			for _, in := range b.Instrs {
+				switch x := in.(type) {
+				case *ssa.Slice:
+					want := unitAny
+					if isString(x.X.Type()) {
+						want = unitBytes
+					} else if isRuneSlice(x.X.Type()) {
+						want = unitRunes
+					} else {
+						continue
+					}
+					for _, bound := range []ssa.Value{x.Low, x.High} {
+						if bound == nil {
+							continue
+						}
+						nOps++
+						got := unit(bound, 0)
+						if got != unitAny {
+							used = true
+						}
+						if got == unitClash || (got != unitAny && got != want) {
+							r.Fail("R01.8", funcKey(f)+": slice bound `"+w.ExprNear(x.Pos())+"`", x.Pos(), fmt.Sprintf("a %s is sliced with a bound counted in %s: wrong as soon as an argument holds a multi-byte character", map[strUnit]string{unitBytes: "string", unitRunes: "[]rune"}[want], got))
+						}
+					}
+				case *ssa.BinOp:
+					switch x.Op {
+					case token.ADD, token.SUB, token.LSS, token.LEQ, token.GTR, token.GEQ, token.EQL, token.NEQ:
+						a, c := unit(x.X, 0), unit(x.Y, 0)
+						if a != unitAny || c != unitAny {
+							nOps++
+							used = true
+						}
+						if join(a, c) == unitClash {
+							r.Fail("R01.8", funcKey(f)+": `"+x.String()+"`", x.Pos(), fmt.Sprintf("combines a quantity counted in %s with one counted in %s: e.g. a byte offset from strings.Index advanced by a character count lands inside (or before the end of) a multi-byte character", a, c))
+						}
+					}
+				}
+			}
+		}
+		if used {
+			nFuncs++
+		}
+		_ = clashAt
+	}
+	r.Count("functions with byte/character quantities", nFuncs)
+	r.Count("unit-checked operations", nOps)
+	r.OK("R01.8", "package xpath: unit discipline", token.NoPos, fmt.Sprintf("%d operations in %d functions carry a unit; none mixes bytes and characters", nOps, nFuncs))
+}
